@@ -440,8 +440,10 @@ def check_tables(ctx):
             if t[0] == 'attr' and t[1] == ('param', 'self') and fi.cls.lookup(t[2]) is not None and fi.cls.lookup(t[2]).is_property:
                 t = ctx.sval(fi.cls.lookup(t[2])).ret()
         return t
-    ctx.check(tq.match(ctx.sval(hs).expr(digest), size_term(ks)) is not None and tq.match(ctx.sval(hs).expr(digest), size_term(hs)) is not None,
-              'K5', 'PRF key size = output size = digest size', key=('K5', 'prf-sizes'), site=ctx.site(hs, hs.node))
+    want_sizes = {'sha1': 20, 'sha256': 32, 'sha512': 64}
+    ctx.check(common.digest_size_table(ctx, ks) == want_sizes and common.digest_size_table(ctx, hs) == want_sizes,
+              'K5', 'PRF key size = output size = digest size', key=('K5', 'prf-sizes'), site=ctx.site(hs, hs.node),
+              detail={'key_size': common.digest_size_table(ctx, ks), 'hash_size': common.digest_size_table(ctx, hs)})
     pi = ctx.func('crypto.Prf.__init__')
     PI = ctx.sval(pi)
     common.expect_term(ctx, 'K5', PI, PI.final('self.hasher'), 'self._digestmod_dict[%s.id]' % pi.call_params()[0],
@@ -457,8 +459,8 @@ def check_tables(ctx):
         ctx.check(have.get(k) == v, 'K5', 'INTEG transform %d is HMAC-%s truncated to %d bits' % (k, v[0].split('.')[1], v[1]),
                   key=('K5', 'integ', k), site='crypto.py:%s' % d.lineno, detail={'found': have.get(k)})
     ks = ctx.func('crypto.Integrity.key_size')
-    common.expect_term(ctx, 'K5', ctx.sval(ks), size_term(ks), digest, 'integrity key size = digest size (20/32/64)', ('K5', 'integ-key'),
-                       ctx.site(ks, ks.node))
+    ctx.check(common.digest_size_table(ctx, ks) == want_sizes, 'K5', 'integrity key size = digest size (20/32/64)', key=('K5', 'integ-key'),
+              site=ctx.site(ks, ks.node), detail={'found': common.digest_size_table(ctx, ks)})
     ii = ctx.func('crypto.Integrity.__init__')
     II = ctx.sval(ii)
     common.expect_term(ctx, 'K5', II, II.final('self.hasher'), 'self._digestmod_dict[%s.id][0]' % ii.call_params()[0],
@@ -567,7 +569,31 @@ def check_ecdh(ctx, r7='K7'):
     common.expect_term(ctx, r7, E, priv, 'ec.generate_private_key(self._ec_groups[%s], backend=_)' % g,
                        'the private key is generated on the curve of the group', (r7, 'ec-key'), site)
     klen = E.final('self.key_len')
-    ok = klen is not None and priv is not None and strip_ids(klen) == ('bin', '//', ('add', (('attr', strip_ids(priv), 'key_size'), const(7))), const(8))
+    # evaluated for each group: (bits of the group's curve + 7) // 8 - whether the bits are read from the generated key, from the curve
+    # object of the group table, or from a table of widths computed from that table
+    BITS = {'SECP256R1': 256, 'SECP384R1': 384, 'SECP521R1': 521}
+    curve_of = {int(prog.const_eval(k, ec.module, ec)): src(v).split('.')[-1].rstrip('()') for k, v in zip(d.keys, d.values)}
+    widths = {}
+    if klen is not None and priv is not None:
+        for gid in sorted(curve_of):
+            def leaf(x, gid=gid):
+                x = strip_ids(x)
+                if x == ('param', g):
+                    return gid
+                if x[0] == 'global' and x[1].split('.')[-1].startswith('DH_') and x[1].split('.')[-1][3:].isdigit():
+                    return int(x[1].split('.')[-1][3:])
+                if x[0] == 'attr' and x[2] == 'key_size':
+                    b = x[1]
+                    if b == strip_ids(priv) or (b[0] == 'index' and b[1] == ('attr', ('param', ei.self_name), '_ec_groups') and tq.teval(b[2], leaf) == gid):
+                        return BITS.get(curve_of[gid])
+                    if tq.is_call(b) and isinstance(b[1], str) and b[1].split('.')[-1] in BITS and not b[3]:
+                        return BITS[b[1].split('.')[-1]]
+                raise tq.NoValue()
+            try:
+                widths[gid] = tq.teval(klen, leaf)
+            except (tq.NoValue, Exception):
+                widths[gid] = None
+    ok = bool(widths) and widths == {gid: (BITS.get(c, 0) + 7) // 8 for gid, c in curve_of.items()}
     ctx.check(ok, r7, 'coordinate width = ceil(curve bits / 8)', key=(r7, 'ec-width'), site=site,
               detail={'found': tq.text(klen) if klen else None})
     pub = E.final('self.public_key')
@@ -589,7 +615,12 @@ def check_ecdh(ctx, r7='K7'):
     fg = ctx.func('crypto.DiffieHellman.from_group')
     FG = ctx.sval(fg)
     g = fg.call_params()[0]
-    rets = [(pc, strip_ids(t)) for pc, t, _ in FG.returns]
+    def leaves(pc, t):
+        """a returned local that was bound in the try body or in its handler is one return per binding"""
+        if t[0] == 'cond':
+            return leaves(tuple(pc) + ((t[1], True),), t[2]) + leaves(tuple(pc) + ((t[1], False),), t[3])
+        return [(tuple(pc), t)]
+    rets = [x for pc, t, _ in FG.returns for x in leaves(strip_ids(tuple(pc)), strip_ids(t))]
     modp = [r for r in rets if r[1] == strip_ids(FG.expr('MODPDH(%s)' % g)) and common.lookup_side(r[0], ('param', g)) == 'hit']
     ecdh = [r for r in rets if r[1] == strip_ids(FG.expr('ECDH(%s)' % g)) and common.lookup_side(r[0], ('param', g)) == 'miss']
     ctx.check(len(rets) == 2 and len(modp) == 1 and len(ecdh) == 1, r7,
